@@ -31,16 +31,51 @@ class CompileGroup:
         self.per_crate = per_crate
         self.secs = 0.0
         self.rustc_processes = 0
-        self.libs = {}  # name -> lib.rs text: library crates items may depend on
+        self.libs = {}  # name -> {id: module text}: library crates items may depend on
+        self.lib_dropped = {}  # name -> {id: [errors]}: modules which did not compile
 
     def _lib_dep(self, name):
         return "{ path = \"%s\" }" % os.path.join(self.root, name)
 
     def _emit_libs(self):
-        for name, text in self.libs.items():
+        """library crates: {name: {id: module text}} -> one file k<id>.rs per module"""
+        for name, mods in self.libs.items():
             cdir = os.path.join(self.root, name)
+            src = os.path.join(cdir, "src")
+            os.makedirs(src, exist_ok=True)
             write_if_changed(os.path.join(cdir, "Cargo.toml"), crate_manifest(name, {"enum-tools": dep_enum_tools()}))
-            write_if_changed(os.path.join(cdir, "src", "lib.rs"), text)
+            dropped = self.lib_dropped.get(name, {})
+            keep = {"lib.rs"}
+            lines = ["#![allow(dead_code, unused_imports, private_interfaces, unreachable_patterns)]"]
+            for mid, text in sorted(mods.items()):
+                if mid in dropped:
+                    continue
+                fn = "k%06d.rs" % mid
+                keep.add(fn)
+                write_if_changed(os.path.join(src, fn), text)
+                lines.append("pub mod k%06d;" % mid)
+            write_if_changed(os.path.join(src, "lib.rs"), "\n".join(lines) + "\n")
+            for f in os.listdir(src):
+                if f not in keep:
+                    os.remove(os.path.join(src, f))
+
+    def build_libs(self):
+        """build the libraries, dropping modules which do not compile (remembered in lib_dropped)"""
+        build.prepare_root(self.root)
+        for name in self.libs:
+            self.lib_dropped.setdefault(name, {})
+            for rnd in range(5):
+                self._workspace([])
+                rc, msgs, err = self._cargo([name], "build")
+                if rc == 0:
+                    break
+                by_case, rest = build.attribute(build.compiler_errors(msgs))
+                if not by_case:
+                    raise Inconclusive("library %s does not build and no error could be attributed to a module:\n%s\n%s" % (
+                        name, "\n".join(e["rendered"] for e in rest[:4]), err[-2000:]))
+                self.lib_dropped[name].update(by_case)
+            else:
+                raise Inconclusive("library %s still fails after dropping modules" % name)
 
     # -- emission ----------------------------------------------------------------------
     def _emit_crate(self, crate: str, items: list, use_control=False, no_std=False):
